@@ -41,7 +41,8 @@ RULE = (
     'C auth: every script containing E of length <= 3 (thorough 4) x {no '
     'token, stub token, real AuthenticationToken over a requests shim} x '
     '{success, disconnect}; '
-    'D user handlers: every script containing P of length <= 3 (thorough 4) '
+    'D user handlers (answering with an explicit flag and data, with empty '
+    'data only, with data only, by message id): every script containing P of length <= 3 (thorough 4) '
     'x early listener {answers, ignores} x {wait, burst} x {success, '
     'disconnect}, and length <= 2 x {none, answers, ignores} x versions >= '
     '385; '
@@ -201,6 +202,20 @@ def play_events(script):
                    bytes((7 * k + i) & 0xFF for k in range(n - 1))))
         ev.append(('keepalive', 101 + i))
     return ev
+
+
+def answer_data(mid):
+    """What the user handler answers a plugin request with: the three ways
+    of building the response are spread over the message ids."""
+    return (b'ok', b'', b'x')[mid % 3]
+
+
+def answer_kw(mid):
+    # explicit flag + data / data only, empty / data only, non-empty: a
+    # response built with data (even empty) and no flag counts as successful
+    if mid % 3 == 0:
+        return {'successful': True, 'data': b'ok'}
+    return {'data': answer_data(mid)}
 
 
 def login_probes(script):
@@ -561,8 +576,8 @@ def body(W, sc, seed):
             def takeover(p):
                 if listener == 'answer':
                     conn.write_packet(serverbound.login.PluginResponsePacket(
-                        message_id=p.message_id, successful=True,
-                        data=b'ok'))
+                        message_id=p.message_id,
+                        **answer_kw(p.message_id)))
                 raise C.IgnorePacket()
             conn.register_packet_listener(
                 takeover, clientbound.login.PluginRequestPacket, early=True)
@@ -772,7 +787,7 @@ def body2(W, sc, seed):
     if listener == 'answer' and idx_ge(mc, v, 385):
         def takeover(p):
             conn.write_packet(serverbound.login.PluginResponsePacket(
-                message_id=p.message_id, successful=True, data=b'ok'))
+                message_id=p.message_id, **answer_kw(p.message_id)))
             raise C.IgnorePacket()
         conn.register_packet_listener(
             takeover, clientbound.login.PluginRequestPacket, early=True)
@@ -1038,7 +1053,7 @@ def judge_login(view, o, b, end_state=True):
     if listener == 'ignore':
         wr = []
     elif listener == 'answer':
-        wr = [(s[1], True, b'ok') for s in plugins]
+        wr = [(s[1], True, answer_data(s[1])) for s in plugins]
     else:
         wr = [(s[1], False, None) for s in plugins]
     gr = sorted(o['replies'], key=repr)
